@@ -646,6 +646,12 @@ KERNEL_GROUPS['KernelsGpo'] = [
     ('genomic_position_offsets.py', 'GenomicPositionOffsets.alt_to_ref_position', 'k_gpo_alt_to_ref_position', 'kgpo'),
     ('genomic_position_offsets.py', 'GenomicPositionOffsets._ref_offset_to_alt_pos', 'k_gpo_ref_offset_to_alt_pos', 'kgpo'),
     ('genomic_position_offsets.py', 'GenomicPositionOffsets.alt_var_overlaps_var', 'k_gpo_alt_var_overlaps_var', 'kgpo'),
+    # the construction: clamp_var_stats_collection (sorted(..., key=pos) is Model/Gpo.v sort_by_pos) and from_var_stats with __post_init__
+    ('var_stats.py', 'VarStats.ref_end', 'kg_vs_ref_end', 'vstat'),
+    ('var_stats.py', 'VarStats.is_in_range', 'kg_vs_is_in_range', 'vstat'),
+    ('var_stats.py', 'clamp_var_stats_collection', 'k_clamp_var_stats_collection', None),
+    ('genomic_position_offsets.py', 'GenomicPositionOffsets.__post_init__', 'k_gpo_post_init', 'kgpo'),
+    ('genomic_position_offsets.py', 'GenomicPositionOffsets.from_var_stats', 'k_gpo_from_var_stats', 'kgpo'),
     # REF -> ALT (the nearest-position search goes through the SEARCH_F table to two array_utils functions: Model/PyLoop.v u8_prev_index / u8_next_index)
     ('genomic_position_offsets.py', 'GenomicPositionOffsets.ref_to_alt_position', 'k_gpo_ref_to_alt_position', 'kgpo'),
     ('genomic_position_offsets.py', 'GenomicPositionOffsets.ref_to_alt_range', 'k_gpo_ref_to_alt_range', 'kgpo'),
